@@ -360,6 +360,9 @@ func (rep *Report) finish(def *propDef) int {
 }
 
 func (rep *Report) writeEvidence(def *propDef, violations int) {
+	if rep.Tier != "quick" && rep.Tier != "thorough" {
+		return // development tiers (smoke) write no evidence
+	}
 	states, transitions, evals, distinct, traces := 0, 0, 0, 0, 0
 	var samples []json.RawMessage
 	var stages []map[string]interface{}
